@@ -277,7 +277,9 @@ def _lits_spec(rng):
     return {"kind": rng.choice(["in", "in", "beyond", "beyond", "zero",
                                 "junk", "empty", "opposite"]),
             "len": rng.choice([1, 2, 3, 4, 5]),
-            "seed": rng.randrange(2 ** 30)}
+            "seed": rng.randrange(2 ** 30),
+            # the literals come in a list, or in any other sequence
+            "form": rng.choice(["list", "list", "tuple", "range"])}
 
 
 def _gen_api_op(rng, klass):
@@ -337,6 +339,19 @@ def _gen_api_op(rng, klass):
             "k": rng.choice([0, 1, 2, 3]),
             "kind": rng.choice(["new_combinations", "new_permutations",
                                 "new_words"])}
+
+
+def _as_arg(lits, spec):
+    """The literals in the container form asked for by the case."""
+    form = spec.get("form", "list") if isinstance(spec, dict) else "list"
+    if form == "tuple":
+        return tuple(lits)
+    if form == "range" and lits and all(type(l) is int for l in lits):
+        lo = min(lits)
+        if sorted(lits) == list(range(lo, lo + len(lits))) and (
+                lo > 0 or lo + len(lits) <= 0):
+            return range(lo, lo + len(lits))
+    return list(lits)
 
 
 def _draw_lits(spec, count):
@@ -607,7 +622,8 @@ def _exec_api(case, ctx, mon):
             continue
         if kind == "add_clause":
             lits, cls = lits_of(op["lits"], op["check"])
-            r = call(F.add_clause, list(lits), check=op["check"])
+            r = call(F.add_clause, _as_arg(lits, op["lits"]),
+                     check=op["check"])
             if cls == "bad":
                 expect = "refuse"
             elif op["check"] and lits:
@@ -617,7 +633,8 @@ def _exec_api(case, ctx, mon):
             for spec in op["lits"]:
                 lits, cls = lits_of(spec, op["check"])
                 cl.append((lits, cls))
-            r = call(F.add_clauses_from, [list(l) for l, _ in cl],
+            r = call(F.add_clauses_from,
+                     [_as_arg(l, sp) for (l, _), sp in zip(cl, op["lits"])],
                      check=op["check"])
             expect = "ok"
             for lits, cls in cl:
@@ -633,15 +650,17 @@ def _exec_api(case, ctx, mon):
                 lits = lits[:5]
             if kind == "cardinality":
                 fn = getattr(F, "cardinality_" + op["kind"])
-                r = call(fn, list(lits), op["value"], check=op["check"])
+                r = call(fn, _as_arg(lits, op["lits"]), op["value"],
+                         check=op["check"])
             elif kind == "majority":
-                r = call(getattr(F, op["kind"]), list(lits),
+                r = call(getattr(F, op["kind"]), _as_arg(lits, op["lits"]),
                          check=op["check"])
             elif kind == "parity":
-                r = call(F.add_parity, list(lits), op["const"],
-                         check=op["check"])
+                r = call(F.add_parity, _as_arg(lits, op["lits"]),
+                         op["const"], check=op["check"])
             elif kind == "linear":
-                r = call(F.add_linear, list(lits), op["rel"], op["const"],
+                r = call(F.add_linear, _as_arg(lits, op["lits"]), op["rel"],
+                         op["const"],
                          check=op["check"])
                 if op["rel"] == "=<":
                     expect = "refuse"
